@@ -149,9 +149,9 @@ def to_dict(d, properties=True, lnk=True):
         if lnk:
             if node.lnk:
                 n['lnk'] = {'from': node.cfrom, 'to': node.cto}
-            if node.surface:
+            if node.surface is not None:
                 n['surface'] = node.surface
-            if node.base:
+            if node.base is not None:
                 n['base'] = node.base
         nodes.append(n)
     links = []
@@ -168,7 +168,7 @@ def to_dict(d, properties=True, lnk=True):
     if lnk:
         if d.lnk:
             data['lnk'] = {'from': d.cfrom, 'to': d.cto}
-        if d.surface:
+        if d.surface is not None:
             data['surface'] = d.surface
     if d.identifier is not None:
         data['identifier'] = d.identifier
